@@ -60,7 +60,7 @@ for pid, (tech, ref, text) in sorted(CLAIMS.items()):
         "thorough_cmd": "bin/check %s --tier thorough" % pid,
         "evidence_file": "evidence/%s.json" % pid,
         "engine": "gw",
-        "level_claimed": {"category": "other", "text": text, "design_ref": "DESIGN.md section " + ref},
+        "level_claimed": {"category": "other", "text": text + " Clauses added during the build (after seeded changes and after defects found on the unchanged tree) are decided the same way; the current list of rules with their instance counts is DESIGN.md section 11.8.", "design_ref": "DESIGN.md section " + ref},
         "level_note": TRUST,
         "technique": "static analysis: " + tech,
     })
